@@ -155,14 +155,21 @@ theorem setGroupAddrs_id (gs : List Group) (id : String) : setGroupAddrs gs id (
   simp [setGroupAddrs]
 
 theorem exec_remove (S : Store) (gid e : String) (g : Group) (rm : List String)
-    (hfind : findGroup S.groups gid = some g) (he : g.exprId = e) (hall : ∀ x ∈ rm, x ∈ g.addrs) :
+    (hfind : findGroup S.groups gid = some g) (he : g.exprId = e) (hall : ∀ x ∈ rm, x ∈ g.addrs)
+    (hne : ∃ x ∈ g.addrs, x ∉ rm) :
     exec S (.postAddrs gid e false rm) =
       .ok { S with groups := setGroupAddrs S.groups gid fun g => { g with addrs := g.addrs.filter (!rm.contains ·) } } := by
-  have : rm.all (g.addrs.contains ·) = true := by
+  have h1 : rm.all (g.addrs.contains ·) = true := by
     simp only [List.all_eq_true, List.contains_eq_mem, decide_eq_true_eq]
     exact hall
-  simp [exec, hfind, he]
-  exact hall
+  have h2 : (g.addrs.filter (!rm.contains ·)).isEmpty = false := by
+    obtain ⟨x, hx, hxn⟩ := hne
+    rw [Bool.eq_false_iff]
+    intro hemp
+    have : g.addrs.filter (!rm.contains ·) = [] := by simpa using hemp
+    have hm : x ∈ g.addrs.filter (!rm.contains ·) := List.mem_filter.mpr ⟨hx, by simpa using hxn⟩
+    rw [this] at hm; cases hm
+  simp only [exec, hfind, he, bne_self_eq_false, Bool.false_eq_true, if_false, h1, Bool.not_true, h2]
 
 theorem exec_add (S : Store) (gid e : String) (g : Group) (ad : List String)
     (hfind : findGroup S.groups gid = some g) (he : g.exprId = e) (hall : ∀ x ∈ ad, x ∉ g.addrs) :
@@ -185,7 +192,7 @@ theorem groupCalls_converges' (diff : Diff)
     (hdiff : ∀ n m eq, validScript n m eq (diff n m eq) = true)
     (S : Store) (ga gb g0 : Group) (hfind : findGroup S.groups ga.id = some g0)
     (he : g0.exprId = ga.exprId) (hp : g0.addrs.Perm ga.addrs)
-    (hna : ga.addrs.Nodup) (hnb : gb.addrs.Nodup) :
+    (hna : ga.addrs.Nodup) (hnb : gb.addrs.Nodup) (hbne : gb.addrs ≠ []) :
     ∃ S' f, run S (groupCalls diff ga gb) = some S' ∧
       S'.policies = S.policies ∧ S'.services = S.services ∧
       S'.groups = setGroupAddrs S.groups ga.id f ∧
@@ -206,14 +213,23 @@ theorem groupCalls_converges' (diff : Diff)
   generalize had : (addrDiff rs ga.addrs gb.addrs).2 = ad at pb
   have hsplit : addrDiff rs ga.addrs gb.addrs = (rm, ad) := by rw [← hrm, ← had]
   simp only [hsplit]
-  by_cases hpatch : ga.addrs.length + ad.length < rm.length + rm.length
+  by_cases hpatch : (decide (ga.addrs.length + ad.length < rm.length + rm.length) ||
+      (rm.length == ga.addrs.length && decide (0 < rm.length))) = true
   · -- PATCH of the whole expression
     simp only [hpatch, if_true]
     refine ⟨{ S with groups := setGroupAddrs S.groups ga.id fun g => { g with rtype := gb.rtype, addrs := gb.addrs } },
       fun g => { g with rtype := gb.rtype, addrs := gb.addrs }, ?_, rfl, rfl, rfl, fun _ => ⟨rfl, rfl⟩,
       fun _ => Iff.rfl⟩
-    simp [run, exec, hfind, he]
-  · simp only [hpatch, if_false]
+    have hbe : gb.addrs.isEmpty = false := by cases h : gb.addrs <;> simp_all
+    simp [run, exec, hfind, he, hbe]
+  · simp only [hpatch, Bool.false_eq_true, if_false]
+    have hnotall : ¬(rm.length = ga.addrs.length ∧ 0 < rm.length) := by
+      intro h
+      apply hpatch
+      have h1 : (rm.length == ga.addrs.length) = true := by simp [h.1]
+      have h2 : decide (0 < rm.length) = true := by simp [h.2]
+      rw [h1, h2]; simp
+    have hlen : ga.addrs.length = kept.length + rm.length := by rw [pa.length_eq, List.length_append]
     have hkr : (kept ++ rm).Nodup := pa.nodup_iff.mp hna
     have hka : (kept ++ ad).Nodup := pb.nodup_iff.mp hnb
     have hmemA : ∀ x, x ∈ g0.addrs ↔ x ∈ kept ∨ x ∈ rm := fun x => by rw [hp.mem_iff, pa.mem_iff, List.mem_append]
@@ -252,7 +268,15 @@ theorem groupCalls_converges' (diff : Diff)
         intro x
         simp only [fa, List.mem_append, hmemA, hmemB]; simp
     · have hrne : rm.isEmpty = false := by cases rm <;> simp_all
-      have hx1 := exec_remove S ga.id ga.exprId g0 rm hfind he hrmIn
+      have hkne : ∃ x ∈ g0.addrs, x ∉ rm := by
+        have hpos : 0 < rm.length := by cases rm <;> simp_all
+        have : kept ≠ [] := by
+          intro hk
+          apply hnotall
+          rw [hlen, hk]; simp [hpos]
+        obtain ⟨x, hx⟩ := List.exists_mem_of_ne_nil kept this
+        exact ⟨x, (hmemA x).mpr (Or.inl hx), hdisjR x hx⟩
+      have hx1 := exec_remove S ga.id ga.exprId g0 rm hfind he hrmIn hkne
       by_cases hae : ad = []
       · subst hae
         refine ⟨{ S with groups := setGroupAddrs S.groups ga.id fr }, fr, by simp [run, hrne, hx1, fr], rfl, rfl, rfl,
@@ -283,13 +307,13 @@ theorem groupCalls_converges' (diff : Diff)
 theorem groupCalls_converges (diff : Diff)
     (hdiff : ∀ n m eq, validScript n m eq (diff n m eq) = true)
     (S : Store) (ga gb : Group) (hfind : findGroup S.groups ga.id = some ga)
-    (hna : ga.addrs.Nodup) (hnb : gb.addrs.Nodup) :
+    (hna : ga.addrs.Nodup) (hnb : gb.addrs.Nodup) (hbne : gb.addrs ≠ []) :
     ∃ S' f, run S (groupCalls diff ga gb) = some S' ∧
       S'.policies = S.policies ∧ S'.services = S.services ∧
       S'.groups = setGroupAddrs S.groups ga.id f ∧
       (∀ g, (f g).id = g.id ∧ (f g).exprId = g.exprId) ∧
       ∀ x, x ∈ (f ga).addrs ↔ x ∈ gb.addrs :=
-  groupCalls_converges' diff hdiff S ga gb ga hfind rfl (List.Perm.refl _) hna hnb
+  groupCalls_converges' diff hdiff S ga gb ga hfind rfl (List.Perm.refl _) hna hnb hbne
 
 end NA.Nsx
 
